@@ -189,13 +189,6 @@ def _scope_name(path, kinds):
 def _jedi_query(text):
     st = _state
     st['n'] += 1
-    if st['n'] % 500 == 0:
-        # harness hygiene only (memory): every program has its own path and is never looked
-        # up again; typeshed trees stay cached
-        import parso.cache
-        for per_grammar in parso.cache.parser_cache.values():
-            for k in [k for k in per_grammar if str(k).startswith(st['root'])]:
-                del per_grammar[k]
     path = os.path.join(st['root'], 'w%d_%d.py' % (os.getpid(), st['n']))
     script = st['jedi'].Script(text, path=path, environment=st['env'], project=st['project'])
 
@@ -243,7 +236,8 @@ def _work(task):
         shapes = shapes[task['lo']:task['hi']]
     task = {'style': style, 'shapes': shapes}
     out = {'n': 0, 'nocompile': 0, 'dropped': {}, 'uses': 0, 'dead': 0, 'unexecuted': 0,
-           'queries': 0, 'exact': 0, 'fall': 0, 'fails': [], 'classes': [], 'hits': {}}
+           'queries': 0, 'exact': 0, 'fall': 0, 'leak': 0, 'fails': [], 'classes': [],
+           'hits': {}}
     classes = set()
     hits = out['hits']
     for shape in task['shapes']:
@@ -262,6 +256,8 @@ def _work(task):
                 out['uses'] += 1
                 out['exact'] += us['exact'] is not None
                 out['fall'] += bool(us['fallthrough'])
+            elif us.get('leak'):
+                out['leak'] += 1
             else:
                 out['unexecuted'] += 1
         for n in _flat(shape):
@@ -281,7 +277,7 @@ def _work(task):
 
 def run(ctx):
     tot = {'n': 0, 'nocompile': 0, 'uses': 0, 'dead': 0, 'unexecuted': 0, 'queries': 0,
-           'exact': 0, 'fall': 0}
+           'exact': 0, 'fall': 0, 'leak': 0}
     dropped = {}
     hits = {}
     classes = set()
@@ -354,6 +350,7 @@ def run(ctx):
         'programs_dropped_other_runtime_error': dropped,
         'uses_neutralised_nameerror': tot['dead'], 'uses_not_reached': tot['unexecuted'],
         'exact_clause_applied': tot['exact'], 'class_body_fallthrough_uses': tot['fall'],
+        'uses_excluded_cpython312_comprehension_leak': tot['leak'],
         'distinct_nontrivial': len(classes),
         'rule': 'state = (executable program, executed use of x); transition = one '
                 'Script.goto on it compared with symtable + the tag observed at run time; '
@@ -377,6 +374,9 @@ def run(ctx):
         'exact clause (4) only for uses that are top-level simple statements of a '
         'module/def/class body whose bindings are all top-level simple statements or '
         'parameters of the same body and no global/nonlocal declaration targets the scope',
+        'uses whose run-time value is the iteration variable of a list/set/dict comprehension '
+        'seen from outside it are not judged: CPython 3.12.1 leaks that variable into a class '
+        'body when a closure captures it (3.11 and generator expressions do not)',
         'goto is called with default flags (no follow_imports): an `import m as x` binding is '
         'the alias name',
     ]
